@@ -776,6 +776,8 @@ func (un *Unit) execAppendStructs(st *State, et types.Type, a, b string) Val {
 	un.addFact(eq(res, ite(fits, "(mk_slice (s_arr "+a+") (s_off "+a+") "+newLen+" (s_cap "+a+"))", "(mk_slice "+arr2+" 0 "+newLen+" "+cap2+")")))
 	stt := et.Underlying().(*types.Struct)
 	un.u.usesQuant = true
+	// append(s, x) passes a one-element slice over a fresh array: no quantified copy of b is needed then
+	oneElem := strings.HasPrefix(b, "(mk_slice ") && strings.HasSuffix(b, " 0 1 1)")
 	q := "q_ap!" + fmt.Sprint(un.u.fresh)
 	un.u.fresh++
 	r := "q_apr!" + fmt.Sprint(un.u.fresh)
@@ -789,8 +791,14 @@ func (un *Unit) execAppendStructs(st *State, et types.Type, a, b string) Val {
 		fresh := un.u.freshConst("app_"+stt.Field(i).Name(), un.compSort[c])
 		un.addFact(fmt.Sprintf("(forall ((%s Int)) (! (=> (and (<= 0 %s) (< %s (s_len %s))) (= (select %s %s) (select %s %s))) :pattern ((select %s %s))))",
 			q, q, q, a, fresh, dst, old, srcA, fresh, dst))
-		un.addFact(fmt.Sprintf("(forall ((%s Int)) (! (=> (and (<= (s_len %s) %s) (< %s %s)) (= (select %s %s) (select %s %s))) :pattern ((select %s %s))))",
-			q, a, q, q, newLen, fresh, dst, old, srcB, fresh, dst))
+		if !oneElem {
+			un.addFact(fmt.Sprintf("(forall ((%s Int)) (! (=> (and (<= (s_len %s) %s) (< %s %s)) (= (select %s %s) (select %s %s))) :pattern ((select %s %s))))",
+				q, a, q, q, newLen, fresh, dst, old, srcB, fresh, dst))
+		}
+		// the common case append(s, x): the first appended element, stated without a quantifier
+		first := un.elemRef("(s_arr "+res+")", "(+ (s_off "+res+") (s_len "+a+"))")
+		firstSrc := un.elemRef("(s_arr "+b+")", "(s_off "+b+")")
+		un.addFact(implies("(>= (s_len "+b+") 1)", eq(sel(fresh, first), sel(old, firstSrc))))
 		// frame: a location that is not one of the written elements keeps its value (in the fresh-array case nothing
 		// that existed before is written at all)
 		written := fmt.Sprintf("(and (= (g_kind %s) 2) (= (g_elem_arr %s) (s_arr %s)) (or (not %s) (and (>= (g_elem_idx %s) (+ (s_off %s) (s_len %s))) (< (g_elem_idx %s) (+ (s_off %s) %s)))))",
